@@ -68,6 +68,15 @@ func (r *body) Read(b []byte) (int, error) {
 	if err := r.checkContentLengthViolation(); err != nil {
 		return n, err
 	}
+	if err == io.EOF && r.hasContentLength && r.remainingContentLength > 0 {
+		// The message ended before the number of bytes announced in the Content-Length header
+		// field was received: it is malformed (RFC 9114, section 4.1.2). Don't report a clean EOF.
+		if !r.violatedContentLength {
+			r.str.CancelWrite(quic.StreamErrorCode(ErrCodeMessageError))
+			r.violatedContentLength = true
+		}
+		return n, io.ErrUnexpectedEOF
+	}
 	return n, maybeReplaceError(err)
 }
 
